@@ -308,6 +308,13 @@ func (fv *FuncVerifier) assumeTyped(st *State, v Term, t types.Type) {
 			lim := new(big.Int).Div(new(big.Int).Lsh(big.NewInt(1), 56), big.NewInt(sz))
 			st.assume(mk(sortBool, "(<= %s %s)", slLen(v).S, lim.String()))
 			fv.u.note("slice lengths are bounded by the address space (len*sizeof(elem) <= 2^56)")
+			// elements of an integer slice are values of the element type
+			if et2 := fv.subst(et); v.Sort.Elem != nil && v.Sort.Elem.Kind == KInt && isInteger(et2) && !fv.u.bv {
+				if b, ok := et2.Underlying().(*types.Basic); ok && b.Kind() != types.Int && b.Kind() != types.Int64 {
+					el := mk(sortInt, "(select %s i!e)", slArr(v).S)
+					st.assume(mk(sortBool, "(forall ((i!e Int)) (! %s :pattern (%s)))", fv.u.inRange(et2, el).S, el.S))
+				}
+			}
 		}
 	case KStruct:
 		if stt, ok := t.Underlying().(*types.Struct); ok {
